@@ -115,7 +115,8 @@ def decode_side(rec, hb, pvl, tier, seed, part, nparts):
         if n % nparts != part:
             continue
         hb.beat()
-        for dialect in datespec.DIALECTS:
+        # the dialects take turns being asked about a text first
+        for dialect in common.rotated(datespec.DIALECTS, n // nparts + part):
             exp = datespec.read(text, dialect)
             if exp[0] == "not-temporal":
                 # no claim about the value, but only ValueError may come out
